@@ -5,7 +5,8 @@
 (* (harness/c12 TestRecord), one event per line:                           *)
 (*   {"e":"reset","kind":"inst"|"part","za":bool}                          *)
 (*   {"e":"ring","t":T,"mem":[{"id":n,"zone":z,"ro":b} | {"id":n,"st":s}]} *)
-(*   {"e":"q","now":T,"client":c,"shards":[{"id":s,"size":k,"S":[..]}],    *)
+(*   {"e":"q","now":T,"late":0|1,"client":c,                               *)
+(*                     "shards":[{"id":s,"size":k,"S":[..]}],              *)
 (*                     "lookbacks":[{"id":s,"size":k,"L":l,"S":[..]}]}     *)
 (* Every line must be a step of ShardHistory: Reset, RingChange or Query.  *)
 (* A "q" line whose answers violate a clause is not a Query step; it is    *)
@@ -49,14 +50,14 @@ Step(e) ==
     \/ /\ e.e = "q"
        /\ LET sh == ShardsOf(e)
               lb == LookbacksOf(e)
-          IN IF ~QueryWellTimed(e.now)
-             THEN Report("malformed", [now |-> e.now, stamp |-> stamp, clock |-> clock])
+          IN IF ~QueryWellTimed(e.now, e.late)
+             THEN Report("malformed", [now |-> e.now, late |-> e.late, stamp |-> stamp, clock |-> clock])
                   /\ rejects' = rejects + 1 /\ UNCHANGED hvars
-             ELSE LET f == Failures(e.now, sh, lb)
-                  IN IF f = {} THEN Record(e.now, sh, lb) /\ UNCHANGED rejects   \* = Query(e.now, sh, lb)
-                     ELSE /\ Report("rejected", [now |-> e.now, client |-> e.client, failures |-> f,
+             ELSE LET f == Failures(e.now, e.late, sh, lb)
+                  IN IF f = {} THEN Record(e.now, e.late, sh, lb) /\ UNCHANGED rejects   \* = Query(e.now, e.late, sh, lb)
+                     ELSE /\ Report("rejected", [now |-> e.now, late |-> e.late, client |-> e.client, failures |-> f,
                                                  view |-> cur, stamp |-> stamp])
-                          /\ Record(e.now, sh, lb)          \* Reject: not a step of ShardHistory
+                          /\ Record(e.now, e.late, sh, lb)  \* Reject: not a step of ShardHistory
                           /\ rejects' = rejects + 1
 
 TraceNext == /\ l <= Len(Trace)
